@@ -101,7 +101,7 @@ func (c *Coll) IDs() []string {
 // Updater describes an update function in data form.
 type Updater struct {
 	Set   map[string]interface{} `json:"-"`
-	Style string                 `json:"style"`         // "copy": copy then set; "inplace": mutate the received document and return it
+	Style string                 `json:"style"`         // "copy": copy then set; "inplace": mutate the received document and return it; "inplace-elems": additionally rewrite slices/objects it holds element by element
 	Nil   bool                   `json:"nil,omitempty"` // return nil (remove the document; UpdateFunc only)
 	// BadFor: for the document with this _id the updater produces an invalid document (_expiresAt that is not a
 	// time); every other document gets the normal update. The whole operation must then fail without any effect.
@@ -399,7 +399,13 @@ func (db *DB) Apply(o Op, obs *Obs) ([]Outcome, error) {
 			return same(EDocNotExist), nil
 		}
 		nd := ApplyUpdater(o.Upd, old)
-		return db.storeUpdated(o.Coll, map[string]Doc{o.Id: nd})
+		outs, err := db.storeUpdated(o.Coll, map[string]Doc{o.Id: nd})
+		if o.Upd.Nil {
+			// an update function that returns no document: removing the document (as UpdateFunc does) or refusing
+			// with an error are both acceptable; the statement only rules out a panic
+			outs = append(outs, same(EAny)...)
+		}
+		return outs, err
 	case "deleteById":
 		if coll == nil {
 			return same(ECollNotExist), nil
